@@ -561,6 +561,7 @@ func (q *BufferedChannelQueue[T]) freeNodePool() {
 
 func (q *BufferedChannelQueue[T]) loadFromPool() {
 	for range q.loadWorkerCh {
+		verifPoint("bcq.load.wake", q)
 
 		if q.isClosed.Get() {
 			break
@@ -577,6 +578,7 @@ func (q *BufferedChannelQueue[T]) loadFromPool() {
 			if pollErr != nil {
 				break
 			}
+			verifPoint("bcq.load.betweenPollOffer", q)
 
 			offerErr = q.blockingQueue.Offer(val)
 			// If failed, unshift it back
@@ -586,8 +588,10 @@ func (q *BufferedChannelQueue[T]) loadFromPool() {
 			}
 		}
 		q.lock.Unlock()
+		verifPoint("bcq.load.beforeSleep", q)
 
 		time.Sleep(q.loadFromPoolDuration)
+		verifPoint("bcq.load.afterSleep", q)
 
 	}
 }
@@ -643,6 +647,7 @@ func (q *BufferedChannelQueue[T]) GetFreeNodeHookPoolIntervalDuration() time.Dur
 
 // GetChannel Get Channel(for Selecting channels usages)
 func (q *BufferedChannelQueue[T]) GetChannel() chan T {
+	verifPoint("bcq.getChannel.entry", q)
 	q.notifyWorkers()
 
 	return q.blockingQueue
@@ -653,6 +658,7 @@ func (q *BufferedChannelQueue[T]) Count() int {
 	if q.isClosed.Get() {
 		return 0
 	}
+	verifPoint("bcq.count.afterClosedCheck", q)
 
 	q.lock.RLock()
 	defer q.lock.RUnlock()
@@ -667,12 +673,15 @@ func (q *BufferedChannelQueue[T]) IsClosed() bool {
 
 // Close Close the BufferedChannelQueue
 func (q *BufferedChannelQueue[T]) Close() {
+	verifPoint("bcq.close.entry", q)
 	q.lock.Lock()
 	defer q.lock.Unlock()
 
 	q.isClosed.Set(true)
+	verifPoint("bcq.close.flagSet", q)
 	close(q.loadWorkerCh)
 	close(q.blockingQueue)
+	verifPoint("bcq.close.closed", q)
 }
 
 // Put Put the T val(non-blocking)
@@ -715,6 +724,7 @@ func (q *BufferedChannelQueue[T]) Take() (T, error) {
 	if q.isClosed.Get() {
 		return *new(T), ErrQueueIsClosed
 	}
+	verifPoint("bcq.take.afterClosedCheck", q)
 
 	q.notifyWorkers()
 
@@ -726,6 +736,7 @@ func (q *BufferedChannelQueue[T]) TakeWithTimeout(timeout time.Duration) (T, err
 	if q.isClosed.Get() {
 		return *new(T), ErrQueueIsClosed
 	}
+	verifPoint("bcq.takeWithTimeout.afterClosedCheck", q)
 
 	q.notifyWorkers()
 
@@ -734,6 +745,7 @@ func (q *BufferedChannelQueue[T]) TakeWithTimeout(timeout time.Duration) (T, err
 
 // Offer Offer the T val(non-blocking)
 func (q *BufferedChannelQueue[T]) Offer(val T) error {
+	verifPoint("bcq.offer.entry", q)
 	q.lock.Lock()
 	defer q.lock.Unlock()
 
@@ -742,6 +754,7 @@ func (q *BufferedChannelQueue[T]) Offer(val T) error {
 	}
 
 	poolCount := q.pool.Count()
+	verifPoint("bcq.offer.locked", q)
 
 	// If appearing nothing in the pool
 	if poolCount == 0 {
@@ -762,6 +775,7 @@ func (q *BufferedChannelQueue[T]) Offer(val T) error {
 	if poolCount >= q.bufferSizeMaximum {
 		return ErrQueueIsFull
 	}
+	verifPoint("bcq.offer.beforePool", q)
 
 	q.pool.Offer(val)
 	q.loadWorkerCh.Offer(1)
@@ -773,6 +787,7 @@ func (q *BufferedChannelQueue[T]) Poll() (T, error) {
 	if q.isClosed.Get() {
 		return *new(T), ErrQueueIsClosed
 	}
+	verifPoint("bcq.poll.afterClosedCheck", q)
 
 	q.notifyWorkers()
 
